@@ -121,6 +121,13 @@ class Slicer:
                         d.setdefault(p["l"], []).append((i, j, full))
                 t = blk["t"]
                 if t["k"] == "call":
+                    # `dst.copy_from_slice(src)` / `clone_from_slice` on a local array overwrites all of it: a definition of that local
+                    # (idx -2) whose value is the call - the only write through `&mut` the slicer models
+                    nm = t.get("res") or t.get("decl") or ""
+                    if nm.endswith(("::copy_from_slice", "::clone_from_slice")) and len(t["args"]) == 2:
+                        root = self._mut_root(t["args"][0])
+                        if root is not None:
+                            d.setdefault(root, []).append((i, -2, True))
                     p = t["dest"]
                     pr = p["pr"]
                     if pr and pr[0] == "*":
@@ -128,6 +135,32 @@ class Slicer:
                     d.setdefault(p["l"], []).append((i, -1, not pr))
             self._defs = d
         return self._defs
+
+    def _mut_root(self, op):
+        """local whose storage `op` (a `&mut [T]` temporary) points to: follows single-definition `&mut x` / unsizing casts / copies"""
+        p = op.get("m") or op.get("c")
+        b = self.body
+        seen = 0
+        while p is not None and not p["pr"] and seen < 6:
+            seen += 1
+            l = p["l"]
+            ds = [(i, j, s) for i, j, s in b.iter_stmts() if s["k"] == "assign" and s["p"]["l"] == l and not s["p"]["pr"]]
+            if len(ds) != 1:
+                return None
+            r = ds[0][2]["r"]
+            if r["k"] == "ref" and r.get("bk") == "mut":
+                q = r["p"]
+                if not q["pr"] and b.locals[q["l"]]["ty"].startswith("["):
+                    return q["l"]
+                if q["pr"] == ["*"]:
+                    p = {"l": q["l"], "pr": []}
+                    continue
+                return None
+            if r["k"] in ("cast", "use"):
+                p = r["o"].get("m") or r["o"].get("c")
+                continue
+            return None
+        return None
 
     def reaching(self, l, blk, idx):
         """Reaching definitions of local l just before statement idx of block blk
@@ -149,7 +182,7 @@ class Slicer:
             # order: terminator (-1) is last in program order
             items = []
             for (j, full) in cands:
-                if j == -1:
+                if j < 0:
                     if include_term:
                         items.append((10 ** 9, j, full))
                 else:
@@ -280,6 +313,9 @@ class Slicer:
 
     def def_term(self, l, db, dj, depth):
         blk = self.body.blocks[db]
+        if dj == -2:
+            t = blk["t"]
+            return ("call", t.get("res") or t.get("decl"), (("unknown", "overwritten"), self.operand(t["args"][1], db, len(blk["s"]), depth)), db)
         if dj == -1:
             t = blk["t"]
             args = tuple(self.operand(a, db, len(blk["s"]), depth) for a in t["args"])
